@@ -27,7 +27,7 @@ CLAIMED = {
                 note="Trusted: as C02; the teleport into the 2^64-block end relies on Buffer's public fields meaning what Stream.tla says (checked by the drift comparison on all graph edges)."),
     "C14": dict(level="model_checking", design="5/C14", technique="TLC exhaustive check of the refill/refill4 counter model at scaled word size + Apalache check of the same law at the real word size for all counter values + TLC trace validation of refill events against ChaChaFn",
                 text="MCGuts.tla models refill_wide's lane arithmetic (d0123, add_pos) and the single-block increment; TLC checks Refill4Impl = Refill^4 for every counter and stream-id value of a scaled word. "
-                     "Recorded refill/refill4 calls of the real code at all carry points, double rounds 0..10, per build profile, forced SIMD backend (hook H1) and the portable backend are validated block by block by TLC.",
+                     "Recorded refill/refill4 calls of the real code at all carry points, double rounds 0..10, every sequence of three operations from {refill, refill4, set counter, set stream id}, structured keys, per build profile, forced SIMD backend (hook H1), the portable backend and a compile-time AVX2 build are validated block by block by TLC.",
                 note="Trusted: TLC, ChaChaFn.tla (published vectors), uninterpreted-block abstraction in the small model, harness recording (canary)."),
     "C15": dict(level="model_checking", design="5/C15", technique="TLC exhaustive check of parameter/equality laws over all pairs of scaled states + TLC trace validation of set/get/eq/refill events",
                 text="MCGuts.tla: get/set round trip, isolation and exactness of stream32_eq/stream64_eq are checked by TLC over all pairs of states at a scaled word size; the same calls on the real code "
@@ -77,11 +77,11 @@ CLAIMED = {
                 note="Trusted: TLC, the hash specifications, hook H2 accessors, soundness of fast-forward (compression conformance is per (h, m, t) triple)."),
     "C03": dict(level="model_checking", design="5/C03", technique="TLC exhaustive check of the dispatch decision procedure + conformance of observed Machine selections + cross-configuration trace validation against configuration-free specifications",
                 text="Dispatch.tla states what each macro selects for every build mode and feature level (Total, Safe, Best checked exhaustively); the Machine actually selected in every build / under every forced level is "
-                     "observed and must equal it. All dispatching algorithms (ChaCha wide+narrow, guts, BLAKE x4, JH x4, every vector op) run on identical inputs under 11 (quick) / 16 (thorough) configurations and every distinct "
+                     "observed and must equal it. All dispatching algorithms (ChaCha wide+narrow, guts, BLAKE x4, JH x4, every vector op) run on identical inputs under 11 (quick; plus the three middle rungs of the no-std selection ladder for the selection record, vector ops and keystream) / 16 (thorough) configurations and every distinct "
                      "outcome is validated by TLC against specifications that have no configuration variable; panics and crashes are outcomes.",
                 note="Trusted: TLC, the function specifications (published vectors), dispatch override as stand-in for older CPUs, sampled inputs."),
     "C16": dict(level="exploration", design="5/C16", technique="guard-page / canary harness in child processes; recorded call/return/crash traces validated by TLC against address-free specifications (thin TLA+ part)",
-                text="Every byte-slice API is called on slices ending at the last byte before, and starting at the first byte after, an unmapped page and at interior alignments between canaries, per backend; a child "
+                text="Every byte-slice API - data, constructor key/nonce arguments and digest output buffers - is called on slices ending at (and 1..15 bytes before) the last byte before, and starting at the first byte after, an unmapped page and at interior alignments between canaries, per backend; a child "
                      "process per group makes SIGSEGV/SIGBUS an observed outcome. TraceAlign.tla accepts only episodes in which every call returned, results equal the heap-buffer reference and canaries are intact. "
                      "The TLA+ part is deliberately thin: the deciding observation is the MMU's.",
                 note="Trusted: mmap/mprotect semantics (self-test: a deliberate 1-byte over-read must crash on every run), canaries, reference results validated by the other checks."),
